@@ -38,7 +38,6 @@ def run_cfg(chk, facts, cfg):
     two, up, lo = vidx['TwoSided'], vidx['UpperOneSided'], vidx['LowerOneSided']
     n = 0
     from ..overrides import obligation as no_overrides
-    no_overrides(chk, PID, facts, sfx, [path], 'Confidence ordering and equality', traits=('PartialOrd', 'PartialEq', 'Ord', 'Eq', 'Clone', 'Default', 'TryFrom', 'From'))
 
     def cval(v, payload):
         return ('adt', path, v, (payload,))
@@ -196,19 +195,16 @@ def run_cfg(chk, facts, cfg):
             chk.ob('%s:kind%s' % (PID, sfx), 'table', 'kind() names the three kinds with distinct strings', good, 'strings: %r' % (strs,), facts.loc(f['id']),
                    sample={'fn': 'kind', 'strings': strs})
 
-    # partial_cmp / eq over variant pairs x order of the two levels
-    for trait, meth, label in (('core::cmp::PartialOrd', 'partial_cmp', 'partial_cmp'), ('core::cmp::PartialEq', 'eq', 'eq')):
-        f = facts.trait_method(trait, path, meth)
-        if not chk.anchor('Confidence::%s%s' % (label, sfx), f):
-            continue
-        n += 1
+    # partial_cmp / eq (and any overridden <, <=, >, >=, !=) over variant pairs x order of the two levels
+    def cmp_table(f, label):
         where = facts.loc(f['id'])
         try:
             sx, paths = summarize(facts, f, ['a', 'b'], real=False)
         except Unsupported as e:
             chk.ob('%s:%s:analysable' % (PID, label), 'table', label, None, str(e), where)
-            continue
+            return
         chk.saw(facts, f, paths=len(paths))
+        base = label.split('(')[0]
         for va in (two, up, lo):
             for vb in (two, up, lo):
                 key = '%s:%s:(%s,%s)%s' % (PID, label, adt['variants'][va]['name'], adt['variants'][vb]['name'], sfx)
@@ -226,18 +222,27 @@ def run_cfg(chk, facts, cfg):
                         und = '%d outcomes' % len(outs)
                         continue
                     got = outs.pop()
-                    if label == 'eq':
-                        want = (va == vb and env[x] == env[y])
+                    o = None if va != vb else (0 if env[x] < env[y] else (1 if env[x] == env[y] else 2))
+                    if base == 'eq':
+                        want = (o == 1)
+                    elif base == 'ne':
+                        want = (o != 1)
+                    elif base == 'partial_cmp':
+                        want = ('adt', OPTION, 0, ()) if o is None else ('adt', OPTION, 1, (('adt', ORDERING, o, ()),))
                     else:
-                        if va != vb:
-                            want = ('adt', OPTION, 0, ())
-                        else:
-                            o = 0 if env[x] < env[y] else (1 if env[x] == env[y] else 2)
-                            want = ('adt', OPTION, 1, (('adt', ORDERING, o, ()),))
+                        want = o is not None and o in {'lt': (0,), 'le': (0, 1), 'gt': (2,), 'ge': (1, 2)}[base]
                     if got != want and bad is None:
                         bad = 'levels ordered %s: got %r want %r' % (env, got, want)
-                desc = ('ordered exactly when of the same kind, then by level' if label == 'partial_cmp' else 'equality is equality of kind and level')
-                chk.ob(key, 'table', desc, None if und else bad is None, ('undecided: ' + und) if und else (bad or ''), where)
+                desc = ('ordered exactly when of the same kind, then by level' if base not in ('eq', 'ne') else 'equality is equality of kind and level')
+                chk.ob(key, 'table', desc + ('' if label == base else ' (overridden provided method %s)' % base), None if und else bad is None, ('undecided: ' + und) if und else (bad or ''), where)
+    for trait, meth, label in (('core::cmp::PartialOrd', 'partial_cmp', 'partial_cmp'), ('core::cmp::PartialEq', 'eq', 'eq')):
+        f = facts.trait_method(trait, path, meth)
+        if not chk.anchor('Confidence::%s%s' % (label, sfx), f):
+            continue
+        n += 1
+        cmp_table(f, label)
+    no_overrides(chk, PID, facts, sfx, [path], 'Confidence ordering and equality', traits=('PartialOrd', 'PartialEq', 'Ord', 'Eq', 'Clone', 'Default', 'TryFrom', 'From'),
+                 checkers={(tr, mt): (lambda fnrec, mt=mt: cmp_table(fnrec, mt + '(override)')) for tr, mt in (('PartialEq', 'ne'), ('PartialOrd', 'lt'), ('PartialOrd', 'le'), ('PartialOrd', 'gt'), ('PartialOrd', 'ge'))})
     if cfg == 'default':
         chk.floor('confidence-api', n, 17)
     chk.rules.append('fclass: constructors/conversions on every cell of the IEEE partition of the level at the compared constants')
